@@ -174,7 +174,12 @@ pub fn prop_c03(u: &Url, other: Option<&Url>) -> Option<String> {
                 let want_port = u.port_or_known_default().unwrap_or(4321);
                 match u.socket_addrs(|| Some(4321)) {
                     Ok(v) => {
-                        if v.len() != 1 || v[0].port() != want_port || format!("{}", v[0].ip()) != h.to_string().trim_matches(|c| c == '[' || c == ']') {
+                        let ip_ok = match (&h, v.first().map(|a| a.ip())) {
+                            (Host::Ipv4(a), Some(std::net::IpAddr::V4(b))) => *a == b,
+                            (Host::Ipv6(a), Some(std::net::IpAddr::V6(b))) => *a == b,
+                            _ => false,
+                        };
+                        if v.len() != 1 || v[0].port() != want_port || !ip_ok {
                             return Some(format!("socket_addrs = {:?}", v));
                         }
                     }
@@ -206,6 +211,71 @@ pub fn prop_c03(u: &Url, other: Option<&Url>) -> Option<String> {
         }
         None
     })
+}
+
+/// C03, the views that are not part of the model's record: socket_addrs for IP hosts, Hash / Display / Into<String> /
+/// AsRef, Eq / Ord / PartialOrd against another URL, and the serde string form all agree with the serialization
+/// and with port_or_known_default (no re-parsing involved, so this is independent of C02).
+pub fn prop_c03_views(u: &Url, other: Option<&Url>) -> Option<String> {
+    let u = std::panic::AssertUnwindSafe(u);
+    let other = std::panic::AssertUnwindSafe(other);
+    guarded_opt(move || {
+        let s = u.as_str();
+        if let Some(h) = u.host() {
+            if !matches!(h, Host::Domain(_)) {
+                for fallback in [4321u16, 1080] {
+                    let want_port = u.port_or_known_default().unwrap_or(fallback);
+                    match u.socket_addrs(|| Some(fallback)) {
+                        Ok(v) => {
+                            let ip_ok = match (&h, v.first().map(|a| a.ip())) {
+                                (Host::Ipv4(a), Some(std::net::IpAddr::V4(b))) => *a == b,
+                                (Host::Ipv6(a), Some(std::net::IpAddr::V6(b))) => *a == b,
+                                _ => false,
+                            };
+                            if v.len() != 1 || v[0].port() != want_port || !ip_ok {
+                                return Some(format!("socket_addrs(fallback {}) = {:?}, port_or_known_default = {:?}", fallback, v, u.port_or_known_default()));
+                            }
+                        }
+                        Err(e) => return Some(format!("socket_addrs failed for IP host: {}", e)),
+                    }
+                }
+            }
+        }
+        let h = |x: &Url| {
+            let mut d = DefaultHasher::new();
+            x.hash(&mut d);
+            d.finish()
+        };
+        let hs = |x: &str| {
+            let mut d = DefaultHasher::new();
+            x.hash(&mut d);
+            d.finish()
+        };
+        if h(&u) != hs(s) || u.to_string() != s || String::from((*u).clone()) != s || AsRef::<str>::as_ref(&*u) != s {
+            return Some("Hash / Display / Into<String> / AsRef disagree with the serialization".into());
+        }
+        if let Some(o) = *other {
+            if (*u == o) != (s == o.as_str()) || u.cmp(o) != s.cmp(o.as_str()) || u.partial_cmp(o) != Some(s.cmp(o.as_str())) || o.cmp(&u) != o.as_str().cmp(s) {
+                return Some(format!("Eq/Ord disagree with the serialization against {:?}", o.as_str()));
+            }
+            if (*u == o) && h(&u) != h(o) {
+                return Some("equal URLs hash differently".into());
+            }
+        }
+        match (serde_json::to_string(&*u), serde_json::to_string(s)) {
+            (Ok(a), Ok(b)) if a == b => {}
+            _ => return Some("serde string form is not the serialization".into()),
+        }
+        None
+    })
+}
+
+/// URLs whose schemes are in a prefix relation or differ only behind the scheme: ordering by serialization is not
+/// ordering by components
+pub fn ord_pool() -> Vec<Url> {
+    ["a:x", "a1:x", "a+b:x", "a-b:x", "a.b:x", "web:/p", "web+demo:/p", "coap://h/", "coap+tcp://h/", "http://h/", "https://h/", "http://h:8080/", "http://h./",
+     "ws://h/", "wss://h/", "file:///p", "file://h/p", "http://u@h/", "http://h/?q", "http://h/#f", "http://h/p", "http://h//p"]
+        .iter().filter_map(|s| Url::parse(s).ok()).collect()
 }
 
 /// the round-trip half of C03 (needs C02 to hold for the URL, so it is reported separately)
